@@ -800,6 +800,8 @@ def obj_ops():
     for k in OKEYS[:6]:
         ops.append(f'o.{k} = "{k}1";')
         ops.append(f'{N["delete"]}(o, "{k}");')
+    # properties that exist and hold nil / false / 0 / "" are present: reads, listings and deletes agree on that
+    ops += ['o.b = nil;', 'o = {b: nil, aa: 0, c: "", id: ' + FALSE + '};', 'o.aa = ' + FALSE + ';', f'{P} o.c;', f'{P} o.id;', 'r.c = nil;', f'{P} r.c;', f'{N["delete"]}(o, "c");']
     ops += ['q.b = 7;', 'q = r;', 'r.c = o;', 'o = {id: 1, ID: 2, Id: 3, ক: 4};', 'o = {b: 1, aa: 2, c: 3, z9: 4, id: 5};', 'o = {b: 1, b: 2, aa: 3};', 'o = {};',
             'r.aa = [o];', f'{P} o.b;', f'{P} o.aa;', f'{P} q.id;', f'{P} r.c.b;', 'o.b = o.b + 1;', f'{N["delete"]}(r, "aa");', f'{P} (5).b;', f'{P} "s".b;', f'{P} [o].b;', 'r = {k: {b: 1}};']
     return ops
